@@ -411,11 +411,17 @@ def diff_views(iv, mv):
 
 # ------------------------------------------------------------------ histories on one live object
 
-def gen_history(rng, spec, V):
-    """A random sequence of operations on the object built from `spec`, ending with a save."""
+COPY_FORMS = ['self', 'same', 'other_lazy', 'other_loaded', 'bytes', 'bytearray', 'array', 'memoryview', 'ownview',
+              'ownview_flat', 'list', 'short']
+
+
+def gen_history(rng, spec, V, start='ctor'):
+    """A random sequence of operations on one object (built from `spec`, or read lazily from the file of a save of
+    it when start == 'read'), ending with a save."""
     v = V.VTF(spec['w'], spec['h'], version=(7, spec['minor']), frames=spec['frames'], flags=V.VTFFlags(spec['flags']),
               depth=spec['depth'])
-    keys = [key_val(k) for k in v._frames]
+    mc = v.mipmap_count
+    keys = [key_val(k) for k in v._frames if start == 'ctor' or k[2] < mc]
     dims = {key_val(k): (f.width, f.height) for k, f in v._frames.items()}
     ops = []
     n = rng.choice([2, 3, 4, 5, 6, 8])
@@ -423,32 +429,45 @@ def gen_history(rng, spec, V):
         c = rng.random()
         k = list(rng.choice(keys))
         w, h = dims[tuple(k)]
-        if c < 0.22:
-            ops.append(['save', rng.choice([None, None, None, 2, 3, 4, 5]), spec['sheetver'], spec['asw']])
-        elif c < 0.32:
+        same_level = [q for q in keys if q[2] == k[2]]
+        if c < 0.18:
+            ops.append(['save', rng.choice([None, None, None, 2, 3, 4, 5]), spec['sheetver'], spec['asw'], rng.random() < 0.3])
+        elif c < 0.26:
             ops.append(['compute', rng.choice([0, 1, 2, 3, 4, 4])])
-        elif c < 0.40:
+        elif c < 0.32:
             ops.append(['clearmips', rng.choice([0, 0, 1, 2])])
-        elif c < 0.60:
+        elif c < 0.46:
             ops.append(['fclear'] + k)
-        elif c < 0.72:
+        elif c < 0.52:
             ops.append(['set'] + k + [rng.getrandbits(32)])
-        elif c < 0.82:
+        elif c < 0.72:
+            form = rng.choice(COPY_FORMS + ['self', 'self', 'same', 'other_lazy'])
+            ops.append(['copy'] + k + [form] + list(rng.choice(same_level)) + [rng.getrandbits(32)])
+        elif c < 0.80:
+            src = rng.choice([k, k, [k[0], k[1], max(k[2] - 1, 0)], list(rng.choice(keys))])
+            ops.append(['rescale'] + k + list(src) + [rng.choice([0, 3, 4, 4])])
+        elif c < 0.86:
             ops.append(['pixel'] + k + [rng.randrange(-1, w + 1), rng.randrange(-1, h + 1), [rng.randrange(256) for _ in range(4)]])
-        elif c < 0.88:
+        elif c < 0.90:
             ops.append(['fill'] + k + [[rng.randrange(256) for _ in range(4)]])
-        elif c < 0.92:
+        elif c < 0.93:
             ops.append(['load'])
-        elif c < 0.97:
+        elif c < 0.98:
             ops.append(['fmt', rng.choice(spec['_names'])])
         else:
             ops.append(['lowfmt', rng.choice(spec['_names'] + ['NONE'])])
-    ops.append(['save', None, spec['sheetver'], spec['asw']])
+    ops.append(['save', None, spec['sheetver'], spec['asw'], False])
     return ops
 
 
-def history_model_ops(V, spec, ops, dims):
-    """The same operations in the driver's encoding."""
+def set_data(seed, w, h):
+    r = random.Random(f'set:{seed}')
+    return [r.randrange(256) for _ in range(4 * w * h)]
+
+
+def history_model_ops(V, spec, ops, dims, other_px):
+    """The same operations in the driver's encoding. `other_px[key]` = pixels of the frames of the reference file
+    (the content of the frames of the *other* VTF objects used as copy sources)."""
     F = V.ImageFormats
     out = []
     for op in ops:
@@ -461,17 +480,27 @@ def history_model_ops(V, spec, ops, dims):
         elif t == 'set':
             w, h = dims[tuple(op[1:4])]
             out.append({'o': 5, 'a': op[1:4], 'd': set_data(op[4], w, h)})
+        elif t == 'copy':
+            k, form, sk, seed = op[1:4], op[4], op[5:8], op[8]
+            w, h = dims[tuple(k)]
+            if form in ('self', 'ownview', 'ownview_flat'):
+                out.append({'o': 10, 'a': k + k})
+            elif form == 'same':
+                out.append({'o': 10, 'a': k + sk})
+            elif form in ('other_lazy', 'other_loaded'):
+                px = other_px.get(tuple(sk))
+                out.append({'o': 5, 'a': k, 'd': px} if px is not None else {'o': 11, 'a': k})
+            elif form in ('list', 'short'):
+                out.append({'o': 11, 'a': k})
+            else:
+                out.append({'o': 5, 'a': k, 'd': set_data(seed, w, h)})
+        elif t == 'rescale': out.append({'o': 12, 'a': op[1:4] + op[4:7] + [op[7]]})
         elif t == 'pixel': out.append({'o': 6, 'a': op[1:4] + [op[4], op[5]], 'd': op[6]})
         elif t == 'fill': out.append({'o': 7, 'a': op[1:4], 'd': op[4]})
         elif t == 'load': out.append({'o': 2})
         elif t == 'fmt': out.append({'o': 8, 'a': [F[op[1]].ind]})
         elif t == 'lowfmt': out.append({'o': 9, 'a': [F[op[1]].ind]})
     return out
-
-
-def set_data(seed, w, h):
-    r = random.Random(f'set:{seed}')
-    return [r.randrange(256) for _ in range(4 * w * h)]
 
 
 def _favg(px, w, h, nw, nh):
@@ -488,84 +517,169 @@ def _favg(px, w, h, nw, nh):
     return out
 
 
-def run_history_impl(V, spec, ops):
-    """Apply the history to one live object. Returns (saves, problems): `saves` = bytes or ('err', name) per save
-    (stops at the first exception); `problems` = direct-oracle failures found after a save:
+def run_history_impl(V, spec, ops, start='ctor'):
+    """Apply the history to ONE live object. Returns (saves, problems, model_json, other_px):
+    `saves` = bytes or ('err', name) per save (stops at the first exception outside copy/rescale/pixel calls);
+    `problems` = direct-oracle failures found after a save:
       * a frame that was cleared (Frame.clear / clear_mipmaps) when save() ran is not the floor average of its parent,
-      * the file read back does not hold what the live object holds (up to the format's quantisation)."""
+      * the file read back does not hold what the live object holds (up to the format's quantisation),
+      * (object read from a file) a frame that was never modified - copying a frame onto itself, loading, viewing its
+        buffer do not modify it - does not read back as it was in the file."""
+    import tempfile, os
+    from array import array
     F = V.ImageFormats
-    v, mj = build(V, spec)
+    v0, mj = build(V, spec)
+    d0 = impl_save(V, v0, dict(spec, ops=[]))
+    if isinstance(d0, tuple):
+        return [('err', d0[1])], [], None, {}
+    iv0 = impl_view(V, d0)
+    other_px = {tuple(f['key']): f['px'] for f in iv0['frames'] if not isinstance(f['px'], dict)}
+    other_lazy = V.VTF.read(BytesIO(d0))
+    other_loaded = V.VTF.read(BytesIO(d0)); other_loaded.load()
+    tmp = []
+    if start == 'read':
+        if spec.get('real_file'):
+            fd, path = tempfile.mkstemp(suffix='.vtf'); os.write(fd, d0); os.close(fd)
+            stream = open(path, 'rb'); tmp.append((stream, path))
+        else:
+            stream = BytesIO(d0)
+        v = V.VTF.read(stream)
+        mj = {k: iv0[k] for k in ('width', 'height', 'depth', 'minor', 'flags', 'frame_count', 'first', 'refl', 'bump', 'fmt',
+                                  'low_fmt', 'mip_count', 'res', 'sheet')}
+        mj['low'] = {'w': iv0['low_w'], 'h': iv0['low_h'], 'data': None, 'file': iv0['low']['px'] if iv0['low'] else None}
+        mj['frames'] = [{'key': f['key'], 'w': f['w'], 'h': f['h'], 'data': None, 'file': f['px']} for f in iv0['frames']]
+    else:
+        v, mj = build(V, spec)
     frames = {key_val(k): f for k, f in v._frames.items()}
-    cleared = {k for k, f in frames.items() if f._data is None and k[2] > 0}
+    oframes = {'other_lazy': {key_val(k): f for k, f in other_lazy._frames.items()},
+               'other_loaded': {key_val(k): f for k, f in other_loaded._frames.items()}}
+    cleared = {k for k, f in frames.items() if f._data is None and f._fileinfo is None and k[2] > 0}
+    touched = set()
+    fmt_changed = False
     saves, problems = [], []
-    for step, op in enumerate(ops):
-        t = op[0]
-        try:
-            if t == 'save':
-                b = BytesIO()
-                was_cleared = set(cleared)
-                v.save(b, version=None if op[1] is None else (7, op[1]), sheet_seq_version=op[2], asw_or_later=op[3])
-                data = b.getvalue()
-                saves.append(data)
-                cleared.clear()
-                # oracle 1: regenerated levels are floor averages of their (live) parent
-                for k in sorted(was_cleared):
-                    if k[2] >= v.mipmap_count or k[0] >= v.frame_count:
-                        continue
-                    par = frames.get((k[0], k[1], k[2] - 1)); cur = frames[k]
-                    if par is None or par._data is None or cur._data is None:
-                        continue
-                    want = _favg(list(par._data), par.width, par.height, cur.width, cur.height)
-                    if list(cur._data) != want:
-                        problems.append((step, f'after save #{len(saves)}, mipmap {k} that was cleared is not the floor average of '
-                                         f'its parent: {list(cur._data)[:8]} instead of {want[:8]}'))
-                        break
-                # oracle 2: what is read back is what the object holds
-                iv = impl_view(V, data)
-                if 'err' in iv:
-                    problems.append((step, f'the file of save #{len(saves)} cannot be read: {iv["err"]}'))
-                else:
-                    nm = v.format.name
-                    for fr in iv['frames']:
-                        live = frames.get(tuple(fr['key']))
-                        if live is None or live._data is None or isinstance(fr['px'], dict):
+    try:
+        for step, op in enumerate(ops):
+            t = op[0]
+            try:
+                if t == 'save':
+                    # (a lazy parent is itself regenerated for the purpose of this pass and then reloaded from the file)
+                    was_cleared = {k for k in cleared if frames.get((k[0], k[1], k[2] - 1)) is not None
+                                   and frames[(k[0], k[1], k[2] - 1)]._fileinfo is None}
+                    ver = None if op[1] is None else (7, op[1])
+                    if len(op) > 4 and op[4]:
+                        fd, path = tempfile.mkstemp(suffix='.vtf'); os.close(fd)
+                        with open(path, 'wb') as fh:
+                            v.save(fh, version=ver, sheet_seq_version=op[2], asw_or_later=op[3])
+                        with open(path, 'rb') as fh:
+                            data = fh.read()
+                        os.unlink(path)
+                    else:
+                        b = BytesIO()
+                        v.save(b, version=ver, sheet_seq_version=op[2], asw_or_later=op[3])
+                        data = b.getvalue()
+                    saves.append(data)
+                    cleared.clear()
+                    for k in sorted(was_cleared):
+                        if k[2] >= v.mipmap_count or k[0] >= v.frame_count:
                             continue
-                        if nm in ('RGB565', 'BGR565'):
+                        par = frames.get((k[0], k[1], k[2] - 1)); cur = frames[k]
+                        if par is None or par._data is None or cur._data is None:
                             continue
-                        if fr['px'] != quant_img(nm, list(live._data)):
-                            problems.append((step, f'save #{len(saves)}: frame {fr["key"]} read back differs from the live frame'))
+                        want = _favg(list(par._data), par.width, par.height, cur.width, cur.height)
+                        if list(cur._data) != want:
+                            problems.append((step, f'after save #{len(saves)}, mipmap {k} that was cleared is not the floor average of '
+                                             f'its parent: {list(cur._data)[:8]} instead of {want[:8]}'))
                             break
-            elif t == 'compute':
-                v.compute_mipmaps(V.FilterMode(op[1]))
-                cleared -= {k for k in cleared if k[2] < v.mipmap_count}
-            elif t == 'clearmips':
-                v.clear_mipmaps(after=op[1])
-                cleared |= {k for k in frames if k[2] > op[1]}
-            elif t == 'fclear':
-                frames[tuple(op[1:4])].clear()
-                if op[3] > 0:
-                    cleared.add(tuple(op[1:4]))
-            elif t == 'set':
-                fr = frames[tuple(op[1:4])]
-                fr.copy_from(bytes(set_data(op[4], fr.width, fr.height)))
-                cleared.discard(tuple(op[1:4]))
-            elif t == 'pixel':
-                try:
-                    frames[tuple(op[1:4])][op[4], op[5]] = tuple(op[6])
-                except IndexError:
-                    pass
-                cleared.discard(tuple(op[1:4]))
-            elif t == 'fill':
-                frames[tuple(op[1:4])].fill(*op[4])
-                cleared.discard(tuple(op[1:4]))
-            elif t == 'load':
-                v.load()
-                cleared.clear()
-            elif t == 'fmt':
-                v.format = F[op[1]]
-            elif t == 'lowfmt':
-                v.low_format = F[op[1]]
-        except Exception as e:  # noqa
-            saves.append(('err', type(e).__name__))
-            break
-    return saves, problems, mj
+                    iv = impl_view(V, data)
+                    if 'err' in iv:
+                        problems.append((step, f'the file of save #{len(saves)} cannot be read: {iv["err"]}'))
+                    else:
+                        nm = v.format.name
+                        for fr in iv['frames']:
+                            live = frames.get(tuple(fr['key']))
+                            if live is None or live._data is None or isinstance(fr['px'], dict) or nm in ('RGB565', 'BGR565'):
+                                continue
+                            if fr['px'] != quant_img(nm, list(live._data)):
+                                problems.append((step, f'save #{len(saves)}: frame {fr["key"]} read back differs from the live frame'))
+                                break
+                        if start == 'read' and not fmt_changed and nm not in ('RGB565', 'BGR565'):
+                            for fr in iv['frames']:
+                                k = tuple(fr['key'])
+                                if k in touched or k not in other_px or isinstance(fr['px'], dict):
+                                    continue
+                                if fr['px'] != other_px[k]:
+                                    problems.append((step, f'save #{len(saves)}: frame {list(k)} was never modified (only loaded / copied onto '
+                                                     f'itself / viewed) but reads back as {fr["px"][:8]} instead of the file\'s {other_px[k][:8]}'))
+                                    break
+                elif t == 'compute':
+                    v.compute_mipmaps(V.FilterMode(op[1]))
+                    touched |= {k for k in cleared if k[2] < v.mipmap_count}
+                    cleared -= {k for k in cleared if k[2] < v.mipmap_count}
+                elif t == 'clearmips':
+                    v.clear_mipmaps(after=op[1])
+                    cleared |= {k for k in frames if k[2] > op[1]}; touched |= {k for k in frames if k[2] > op[1]}
+                elif t == 'fclear':
+                    k = tuple(op[1:4]); frames[k].clear(); touched.add(k)
+                    if k[2] > 0:
+                        cleared.add(k)
+                elif t == 'set':
+                    k = tuple(op[1:4]); fr = frames[k]
+                    fr.copy_from(bytes(set_data(op[4], fr.width, fr.height)))
+                    cleared.discard(k); touched.add(k)
+                elif t == 'copy':
+                    k, form, sk, seed = tuple(op[1:4]), op[4], tuple(op[5:8]), op[8]
+                    fr = frames[k]
+                    data = set_data(seed, fr.width, fr.height)
+                    try:
+                        if form == 'self': fr.copy_from(fr)
+                        elif form == 'same':
+                            fr.copy_from(frames[sk])
+                            if sk != k: touched.add(k)
+                        elif form in ('other_lazy', 'other_loaded'):
+                            if sk in oframes[form] and sk in other_px:
+                                fr.copy_from(oframes[form][sk]); touched.add(k)
+                            else:   # the other object has no such level (never saved): a copy that fails
+                                fr.copy_from(bytes(data[:-1]))
+                        elif form == 'bytes': fr.copy_from(bytes(data)); touched.add(k)
+                        elif form == 'bytearray': fr.copy_from(bytearray(data)); touched.add(k)
+                        elif form == 'array': fr.copy_from(array('B', data)); touched.add(k)
+                        elif form == 'memoryview': fr.copy_from(memoryview(bytes(data))); touched.add(k)
+                        elif form == 'ownview': fr.copy_from(memoryview(fr))
+                        elif form == 'ownview_flat': fr.copy_from(memoryview(fr).cast('B'))
+                        elif form == 'list': fr.copy_from(data)
+                        elif form == 'short': fr.copy_from(bytes(data[:-1]))
+                    except (ValueError, TypeError):
+                        pass
+                    cleared.discard(k)
+                elif t == 'rescale':
+                    k, sk = tuple(op[1:4]), tuple(op[4:7])
+                    try:
+                        frames[k].rescale_from(frames[sk], V.FilterMode(op[7]))
+                        cleared.discard(k)
+                        if sk != k: touched.add(k)
+                    except ValueError:
+                        pass
+                elif t == 'pixel':
+                    k = tuple(op[1:4])
+                    try:
+                        frames[k][op[4], op[5]] = tuple(op[6]); touched.add(k)
+                    except IndexError:
+                        pass
+                    cleared.discard(k)
+                elif t == 'fill':
+                    k = tuple(op[1:4]); frames[k].fill(*op[4]); cleared.discard(k); touched.add(k)
+                elif t == 'load':
+                    v.load(); cleared.clear()
+                elif t == 'fmt':
+                    v.format = F[op[1]]; fmt_changed = True
+                elif t == 'lowfmt':
+                    v.low_format = F[op[1]]
+            except Exception as e:  # noqa
+                saves.append(('err', type(e).__name__))
+                break
+    finally:
+        for stream, path in tmp:
+            stream.close()
+            try: os.unlink(path)
+            except OSError: pass
+    return saves, problems, mj, other_px
